@@ -39,10 +39,11 @@ CHECKS = {
    technique="deterministic simulation: seeded decider behind the sampler's RNG seam and the fork-join seam, state-vector reference model (support, pointwise conditional-probability and chi-square oracles), fault injection around the real CLI, shrinking + replay files"),
  "C05": dict(
    category="exploration",
-   text="Seeded simulation of the decomposer: one decider owns the generated closed Clifford+T diagram and configuration and, through cfg-gated seams, every ambient RNG draw of the random drivers, every RandomState key of the dynamic-T driver, and for parallel executions the worker count (1..16), the execution order of the tasks of every (nested) fork-join region and their workers. Every scenario runs sequentially and in parallel under two schedules; results are compared exactly (Z[omega]/2^k) with an independent evaluator of the original diagram, every decomposition step and component split is checked for conservation while the run proceeds, and sequential/parallel results are compared with each other. Sub-batches: saved Clifford terms of open diagrams, and apply_decomp on embedded sites. Sampling, not enumeration.",
+   text="Seeded simulation of the decomposer: one decider owns the generated closed Clifford+T diagram and configuration and, through cfg-gated seams, every ambient RNG draw of the random drivers, every RandomState key of the dynamic-T driver, and for parallel executions the worker count (1..16), the execution order of the tasks of every (nested) fork-join region and their workers. Every scenario runs sequentially and in parallel twice: once in the sequentialised fork-join model (whole tasks in decider order) and, in every second run, on the simulated worker pool (W real OS threads of which one runs at a time, decider-chosen switches at task start/end, at seams, at joins), which interleaves sibling tasks of different regions; engine E2 additionally runs the shipped rayon code under Miri's seeded scheduler; results are compared exactly (Z[omega]/2^k) with an independent evaluator of the original diagram, every decomposition step and component split is checked for conservation while the run proceeds, and sequential/parallel results are compared with each other. Sub-batches: saved Clifford terms of open diagrams, and apply_decomp on embedded sites. Sampling, not enumeration.",
    design_ref="DESIGN.md §2.3, §4 C05",
-   note="Trusted: the harness evaluator/ring (cross-checked against the gate simulator on harness-translated circuits at every start), the whole-task fork-join model (complete while tasks share no mutable state; a syntactic audit of quizx/src for Mutex/Atomic/RefCell/unsafe/static mut runs with every check and is reported in the evidence). Bounds: <=14 spiders, T-count <=10 quick / <=14 thorough, circuits <=4 qubits. Budget overruns are reported as inconclusive (exit 2 above 1%), never as violations: the property does not state termination.",
-   technique="deterministic simulation: seeded decider behind RNG / hash-order / fork-join seams, exact-evaluator oracle + per-step conservation invariants + sequential/parallel twin, shrinking + replay files"),
+   note="Trusted: the harness evaluator/ring (cross-checked against the gate simulator on harness-translated circuits at every start), the two fork-join models (sequentialised whole tasks; simulated worker pool with switches at task boundaries, seams and joins - no preemption between ordinary instructions, no weak-memory effects: those are left to the small E2 Miri sample; a syntactic audit of quizx/src for Mutex/Atomic/RefCell/unsafe/static mut runs with every check and is reported in the evidence). Bounds: <=14 spiders, T-count <=10 quick / <=14 thorough, circuits <=4 qubits. Budget overruns are reported as inconclusive (exit 2 above 1%), never as violations: the property does not state termination.",
+   technique="deterministic simulation: seeded decider behind RNG / hash-order / fork-join seams (sequentialised model + simulated worker pool with a baton scheduler; real rayon under Miri as second engine), exact-evaluator oracle + per-step conservation invariants + sequential/parallel twin, shrinking + replay files",
+   engine="qsim + qmiri"),
  "C13": dict(
    category="exploration",
    text="Seeded simulation of the qgraph round trip: the decider owns the generated diagram and, through the hash-order seam, the RandomState key of every map created in the encoder and in each of several independent decodes, so JSON member order, decoded vertex numbering and edge insertion order are recorded, replayable decisions instead of per-process accidents. Decoded graphs are compared with the original by an input/output-anchored isomorphism oracle (types, phases, edge types, coordinates), exact scalar comparison in Z[omega]/2^k for sqrt2^p e^{ik pi/4} and 1e-9 relative otherwise, tensor equality where evaluable, and pairwise between hash orders. The file form (write_graph/read_graph) runs on a real filesystem under injected ENOSPC, a torn write at a decider-chosen offset (RLIMIT_FSIZE, child process), missing directory and directory-as-target; only a reported success with a missing, undecodable or different file is a violation.",
@@ -93,6 +94,8 @@ def main():
             "add_only": True,
         },
         "engines": [
+            {"name": "qmiri", "path": "/verif/miri", "serves_properties": ["C05"],
+             "kind_free_text": "engine E2: the shipped quizx (no cfg flag) with real rayon, crossbeam, ThreadRng and RandomState under Miri, whose -Zmiri-seed makes scheduler, OS entropy and hash keys a function of one integer; sequential vs parallel vs brute-force value on small diagrams; started by bin/check C05 (bin/e2)"},
             {"name": "qsim", "path": "/verif/sim", "serves_properties": sorted(CHECKS.keys()),
              "kind_free_text": "native deterministic simulator: one seeded decider decides workload, RNG draws, hash keys, fork-join schedules and faults behind cfg(quizx_verif) seams; harness-owned oracles (exact Z[omega] ZX evaluator, gate-matrix simulator, anchored isomorphism, F2 rank); shrinking and replay files"},
         ],
